@@ -275,8 +275,9 @@ def end_script(rng, steps, how=None):
 
 
 def safe_prefix(rng):
-    """the unchanged tree crashes on `ponderhit` before the engine object exists (known finding);
-    scripts of the other classes first create the object so that they explore the rest"""
+    """a tree without fix 4d13f7c crashes on `ponderhit` before the engine object exists; scripts of
+    most classes first create the object so that they explore the rest even on such a tree
+    (the class ponderhit-first and the witness script exercise the other order)"""
     return [rng.choice([S("isready", "isready"), S("setoption name Hash value 16", "setoption", option="Hash", valid=True),
                         S("isready", "isready")])]
 
@@ -444,7 +445,7 @@ def script_eof(rng):
 
 
 def script_ponderhit_first(rng):
-    """the known finding: ponderhit while the EngineControl object does not exist"""
+    """finding F2 (fixed by 4d13f7c): ponderhit while the EngineControl object does not exist"""
     st = []
     for _ in range(rng.randint(0, 3)):
         st.append(rng.choice([S("uci", "uci"), gen_position(rng), S("stop", "stop"), S("ucinewgame", "ucinewgame"),
@@ -635,7 +636,7 @@ def engine_exists_before(sends, idx):
 
 
 def ponderhit_before_engine(res):
-    """python-level description of the known finding: a `ponderhit` was sent when no
+    """python-level description of finding F2: a `ponderhit` was sent when no
     isready/setoption/go (the commands that create the engine object) had been sent before"""
     sends = [e[1] for e in res["events"] if e[0] == "send"]
     for i, t in enumerate(sends):
@@ -730,7 +731,8 @@ def contract_check(steps, res):
 
 
 def judge(steps, res):
-    """contract_check minus the crash that is the known `ponderhit`-before-engine finding"""
+    """contract_check minus the crash that is the `ponderhit`-before-engine finding (that one is
+    reported once, through the witness script, under its own key)"""
     fails, garbled = contract_check(steps, res)
     if res["rc"] < 0 and ponderhit_before_engine(res):
         fails = [f for f in fails if not f.startswith("killed by signal")]
